@@ -1,4 +1,7 @@
-use std::{collections::HashMap, sync::Arc};
+use std::{
+    collections::{HashMap, HashSet},
+    sync::Arc,
+};
 
 use ckb_merkle_mountain_range::leaf_index_to_pos;
 use ckb_network::{CKBProtocolContext, PeerIndex};
@@ -36,6 +39,17 @@ impl<'a> GetTransactionsProofProcess<'a> {
 
         if self.message.tx_hashes().len() > constant::GET_TRANSACTIONS_PROOF_LIMIT {
             return StatusCode::MalformedProtocolMessage.with_context("too many transactions");
+        }
+
+        let mut uniq = HashSet::new();
+        if !self
+            .message
+            .tx_hashes()
+            .iter()
+            .all(|tx_hash| uniq.insert(tx_hash.as_slice()))
+        {
+            return StatusCode::MalformedProtocolMessage
+                .with_context("duplicate transaction hash exists");
         }
 
         let snapshot = self.protocol.shared.snapshot();
